@@ -179,6 +179,16 @@ theorem gen_ct_ckks_square_eq : type_of% @HC.gs_ckks_square_eq := @HC.gs_ckks_sq
 theorem gen_ct_ckks_square_dispatch : type_of% @HC.gs_ckks_square_dispatch := @HC.gs_ckks_square_dispatch
 theorem ckksSquare_fallback : type_of% @HC.ckksSquare_fallback := @HC.ckksSquare_fallback
 
+/-- translator tie (task S): the DATA LOOPS of `Evaluator::ckks_multiply` (`GenC.ct_ckks_multiply` over the flat buffers: resize, nested loops over the
+    visited pairs, copy over the whole buffer, scale bookkeeping) = the flattened `ctMultiplyDyadic` of the model, THEN `ckksProductBookkeeping` — operands
+    of ANY sizes s1, s2 ≥ 1; the `resize` refusal and arithmetic traps included -/
+theorem gen_ct_ckks_multiply_eq : type_of% @HC.gs_ckks_multiply_eq := @HC.gs_ckks_multiply_eq
+
+/-- GENERATED = MODEL (`ckks_square`, EVERY size ≥ 1, both representations): the generated dispatch / fast path with the fallback route resolved by the
+    generated `ckks_multiply` on the ciphertext and its clone (`gs_ckks_square_run`) = the flattened `ckksSquare`, then the product bookkeeping.
+    With `ckksSquare_eq` / `ckks_square_phase`: what the code's `ckks_square` returns has the negacyclic square of the exact phase. -/
+theorem gen_ct_ckks_square_all : type_of% @HC.gs_ckks_square_run_eq := @HC.gs_ckks_square_run_eq
+
 /-- multiply_plain refuses a coefficient-form ciphertext -/
 theorem ckks_multiply_plain_refuses_coeff : type_of% @HC.ckks_multiply_plain_refuses_coeff := @HC.ckks_multiply_plain_refuses_coeff
 
